@@ -36,6 +36,43 @@ TARGETS = {
     "front": [("memory_info", "statm")],
 }
 
+# ---- two cache levels (model Conc2): sources and methods as the driver numbers them
+SRC2 = ["stat", "status", "smaps", "statm"]
+# method -> (front-end memo function number or None, source number); numbering = Model/C16Gen.lean ffunNames / srcNames
+METHODS2 = [("name", None, 0), ("cpu_times", 0, 0), ("ppid", 2, 0), ("uids", 3, 1), ("num_threads", None, 1),
+            ("memory_info", 1, 3), ("memory_maps", None, 2), ("gids", None, 1), ("cpu_num", None, 0)]
+TARGETS["both"] = [(m, SRC2[g]) for m, _, g in METHODS2]
+PMEMO2 = {0: True, 1: True, 2: True, 3: False}      # checked against the driver on every schedule (a wrong entry = drift)
+
+
+def grants2(pc, ff, g):
+    """parks of the implementation that one step of the two-level model stands for"""
+    fm, pm = ff is not None, PMEMO2.get(g, False)
+    if pc in ("call", "exit"):
+        return ["gate"]
+    if pc == "acquire":
+        return ["gate", "acquire"]
+    if pc == "test":
+        return ["test"]
+    if pc in ("actF", "actP", "delF", "delP"):
+        return [pc]
+    if pc == "f0":
+        return ["loadF"]
+    if pc == "f1":
+        return ["lookupF"]
+    if pc == "p0":      # the front-end wrapper's CALL fun(self) is thread-local up to the platform wrapper's first load
+        return (["computeF"] if fm and pm else []) + (["loadP"] if pm else [])
+    if pc == "p1":
+        return ["lookupP"]
+    if pc == "p2":      # the read: inside the platform wrapper's CALL, or (helper not decorated) the front-end wrapper's
+        return ["computeP"] if pm else ["computeF"]
+    if pc == "p4":
+        return ["storeP"]
+    if pc == "f4":
+        return ["storeF"]
+    return []           # act0, del0, release, ret, retErr: thread-local on the implementation
+
+
 FINDING_LITERAL = "C16-xthread-hit-predates-call"
 FINDING_STALE = "C16-xthread-stale-store"
 
@@ -78,6 +115,7 @@ class Sched:
         self.ps = impl.ps
         self.p = impl.p
         self.target_name = target
+        self.two = target == "both"       # two cache levels: parks carry the level (F = front-end object, P = platform object)
         self.target = self.p if target == "front" else self.p._proc
         w = self.ps.Process.cpu_times
         self.codes = {}
@@ -137,11 +175,16 @@ class Sched:
             what, vis = self.codes[frame.f_code]
             kind = vis.get(frame.f_lasti)
             if kind is not None:
-                if what == "wrapper":
-                    if frame.f_locals.get("self") is not self.target:
-                        return self._local
-                elif what in ("activate", "deactivate"):
-                    if frame.f_locals.get("proc") is not self.target:
+                if what in ("wrapper", "activate", "deactivate"):
+                    obj = frame.f_locals.get("self" if what == "wrapper" else "proc")
+                    if self.two:
+                        if obj is self.p:
+                            kind += "F"
+                        elif obj is self.p._proc:
+                            kind += "P"
+                        else:
+                            return self._local      # another Process object (is_running()'s fresh one)
+                    elif obj is not self.target:
                         return self._local
                 self._park(kind)
         return self._local
@@ -213,8 +256,10 @@ class Sched:
             for tid, t in enumerate(threads):
                 t.start()
                 self._wait_parked(tid)
-            files = [f for _, f in TARGETS[self.target_name]]
+            files = SRC2 if self.two else [f for _, f in TARGETS[self.target_name]]
             dirty = set()
+            nxt = {tid: 0 for tid in range(len(progs))}      # two levels: index of each thread's next program item
+            cur = {}                                          # … and the (front-end memoised?, helper memoised?) of its current call
             for st in steps:
                 if st["k"] == "ver":
                     # the file is materialised lazily: only a `compute` step reads it
@@ -224,11 +269,21 @@ class Sched:
                     if files[st["f"]] != "stat":
                         self.impl.denied[files[st["f"]]] = st["b"]
                 elif st["k"] == "thr" and st["en"]:
-                    if st["pc"] == "w2":
+                    if st["pc"] in ("w2", "p2"):
                         for f in dirty:
                             self.impl._write(f)
                         dirty.clear()
-                    for kind in GRANTS[st["pc"]]:
+                    if self.two:
+                        tid = st["tid"]
+                        if st["pc"] in ("call", "acquire", "exit"):
+                            item = progs[tid][nxt[tid]]
+                            nxt[tid] += 1
+                            if item[0] == "call":
+                                cur[tid] = METHODS2[item[1]][1:]
+                        kinds = grants2(st["pc"], *cur.get(tid, (None, None)))
+                    else:
+                        kinds = GRANTS[st["pc"]]
+                    for kind in kinds:
                         self._grant(st["tid"], kind)
         except Drift as e:
             drift = str(e)
@@ -297,6 +352,81 @@ def gen_case(rng, family):
     return {"target": target, "progs": progs, "schedule": with_versions(picks, nfun), "family": family}
 
 
+def with_versions2(picks, srcs):
+    """two levels: a content change of every source in `srcs` (indexes into SRC2) before every thread step"""
+    sched, v = [], 0
+    for t in picks:
+        for g in srcs:
+            v += 1
+            sched.append(["ver", g, v])
+        sched.append(t)
+    return sched
+
+
+TWO_LEVEL = [1, 2, 3]            # cpu_times, ppid, uids: front-end memoised AND platform helper memoised
+SAME_SRC = {0: [0, 1, 2, 8], 1: [3, 4, 7], 2: [6], 3: [5]}     # source -> METHODS2 indexes reading it
+
+
+def gen_case2(rng, family):
+    """schedules for the two-level model: every program has at least one call that crosses both cache levels"""
+    m2 = rng.choice(TWO_LEVEL)
+    g = METHODS2[m2][2]
+    same = SAME_SRC[g]
+
+    def calls(lo, hi, pool):
+        return [["call", rng.choice(pool)] for _ in range(rng.randrange(lo, hi + 1))]
+
+    def block(lo, hi, pool):
+        return [["acquire"]] + calls(lo, hi, pool) + [["exit"]]
+    if family == "two_vs_block":            # plain two-level calls against a block using the same source at either level
+        progs = [calls(0, 1, same) + block(0, 2, same) + calls(0, 1, same), [["call", m2]] + calls(0, 2, same)]
+    elif family == "two_in_block":          # the owner crosses both levels, the plain caller uses the platform level only
+        progs = [block(1, 2, [m2]) + block(0, 1, same), calls(1, 3, [x for x in same if METHODS2[x][1] is None] or same)]
+    elif family == "two_both":              # both threads enter blocks and call across both levels
+        progs = [block(0, 2, [m2] + same) + calls(0, 1, [m2]), calls(0, 1, [m2]) + block(0, 2, [m2] + same)]
+    elif family == "front_only":            # memory_info: front-end memoised, helper not decorated
+        progs = [block(1, 2, [5]) + block(0, 1, [5, m2]), calls(1, 2, [5]) + calls(0, 1, [m2])]
+    else:                                   # same two-level method hammered across two blocks
+        progs = [[["acquire"], ["call", m2], ["call", m2], ["exit"], ["acquire"], ["call", m2], ["exit"]],
+                 [["call", m2], ["call", m2], ["call", m2]]]
+    srcs = sorted({METHODS2[it[1]][2] for pr in progs for it in pr if it[0] == "call"})
+    n = rng.randrange(30, 90)
+    picks = []
+    if rng.random() < 0.5:
+        picks = [rng.randrange(2) for _ in range(n)]
+    else:
+        t = rng.randrange(2)
+        while len(picks) < n:
+            picks += [t] * rng.randrange(1, 11)
+            t = 1 - t
+    picks += [0, 1] * 60
+    return {"target": "both", "progs": progs, "schedule": with_versions2(picks, srcs), "family": "two:" + family}
+
+
+SCHED_FAMILIES2 = ["two_vs_block", "two_in_block", "two_both", "front_only", "two_hammer"]
+
+
+def corpus_cases2():
+    A, B = 0, 1
+    acq = [A] * 11                       # acquire, test, actF x4, actP x3, act0 (+1 spare: disabled steps are skipped)
+    rel = [A] * 11                       # exit, delF x4, delP x3, del0, release
+    # T1: B's cpu_times() misses the front-end dict, hits the platform dict filled by A's name(), stores the value into
+    #     the front-end dict; A's cpu_times() then hits it there (Lean: crossActs)
+    t1 = {"target": "both", "family": "corpus2:cross-level",
+          "progs": [[["acquire"], ["call", 0], ["call", 1], ["exit"]], [["call", 1]]],
+          "schedule": with_versions2([A] * 10 + [A] * 6 + [B] * 6 + [A] * 4 + _tail(), [0])}
+    # T2: B's cpu_times() straddles two blocks: looks up both dicts of block 1, reads, stores into those (dead) dicts;
+    #     A inside block 2 must read afresh
+    t2 = {"target": "both", "family": "corpus2:straddle",
+          "progs": [[["acquire"], ["exit"], ["acquire"], ["call", 1], ["exit"]], [["call", 1]]],
+          "schedule": with_versions2([A] * 10 + [B] * 5 + [A] * 10 + [A] * 10 + [B] * 4 + [A] * 8 + _tail(), [0])}
+    # T3: B between the front-end deactivations and _proc.oneshot_exit(): front-end attribute gone, platform cache still there
+    t3 = {"target": "both", "family": "corpus2:between-deactivations",
+          "progs": [[["acquire"], ["call", 0], ["exit"]], [["call", 2], ["call", 3]]],
+          "schedule": with_versions2([A] * 10 + [A] * 6 + [A] * 5 + [B] * 8 + [A] * 6 + _tail(), [0, 1])}
+    return [t1, t2, t3]
+
+
 SCHED_FAMILIES = ["plain_vs_block", "two_blocks", "both_block", "hammer"]
 
 
@@ -360,7 +490,15 @@ def enumerate_one_call_vs_block(target, funs=(0,)):
 
 
 def driver_lines(cases):
-    return [{"op": "conc", "obj": c["target"], "progs": c["progs"], "sched": c["schedule"]} for c in cases]
+    out = []
+    for c in cases:
+        if c["target"] == "both":
+            progs = [[["call", METHODS2[it[1]][1], METHODS2[it[1]][2]] if it[0] == "call" else it for it in pr]
+                     for pr in c["progs"]]
+            out.append({"op": "conc2", "progs": progs, "sched": c["schedule"]})
+        else:
+            out.append({"op": "conc", "obj": c["target"], "progs": c["progs"], "sched": c["schedule"]})
+    return out
 
 
 def annotate_steps(case, steps):
@@ -438,9 +576,13 @@ def correspond_concurrent(ctx, res, cases=None):
     known = {f["id"] for f in ctx.findings}
     if cases is None:
         cases = corpus_cases()
-        n = ctx.n(500, 3000)
+        n = ctx.n(400, 3000)
         for i in range(n):
             cases.append(gen_case(ctx.rng, SCHED_FAMILIES[i % len(SCHED_FAMILIES)]))
+        # two cache levels (model Conc2): front-end wrapper over platform wrapper, both objects' parks scheduled
+        cases += corpus_cases2()
+        for i in range(ctx.n(250, 3000)):
+            cases.append(gen_case2(ctx.rng, SCHED_FAMILIES2[i % len(SCHED_FAMILIES2)]))
         exhaustive = None
         if ctx.tier == "thorough" and ctx.budget_factor == 1:
             enum = list(enumerate_one_call_vs_block("proc")) + list(enumerate_one_call_vs_block("front"))
@@ -462,7 +604,8 @@ def correspond_concurrent(ctx, res, cases=None):
             res.count("sched_steps", len(enabled))
             for r in m["rets"]:
                 how = r.get("how")
-                res.count("sched_ret:" + ("exc" if "exc" in r else "computed" if how == "computed" else "hit"))
+                res.count("sched_ret:" + ("exc" if "exc" in r else "computed" if how == "computed" else
+                                          "hit" if "hit" in how else "hitF" if "hitF" in how else "hitP"))
             if not sp["literal"]:
                 res.count("sched:literal_form_false")
             preempt = sum(1 for a, b in zip(enabled, enabled[1:]) if a[0] != b[0])
